@@ -17,7 +17,7 @@ def real_data(cfg):
         return np.zeros((cfg["N"], d))
     sp = cfg["space"]
     mid = [(a + b) / 2 for a, b in zip(sp["lo"], sp["hi"])]
-    kind = cfg["model"] if cfg["model"] not in ("extreme", "scripted", "tiny", "negextreme") else "gauss"
+    kind = cfg["model"] if cfg["model"] not in ("extreme", "scripted", "tiny", "negextreme", "mutating") else "gauss"
     return models.get(kind, d)(mid, cfg["N"], 20240917)
 
 
@@ -119,7 +119,7 @@ def hist_diff(a, b):
 # ---- configuration strategy ------------------------------------------------------------------------------------------
 @st.composite
 def config(draw, kinds=gen.CHEAP, max_d=4, max_len=6, max_bs=4, losses=("minkowski", "msm", "fourier", "gsl", "likelihood"),
-           model_kinds=("gauss", "ar1", "poly"), max_e=3, rl=False, wide=False):
+           model_kinds=("gauss", "ar1", "poly", "mutating"), max_e=3, rl=False, wide=False):
     sp = draw(gen.space_spec(max_d=max_d, max_m=60, wide=wide))
     d_out = draw(st.integers(1, 3))
     loss_kind = draw(st.sampled_from(list(losses)))
